@@ -888,7 +888,9 @@ def _f111(vio):
     case = vio.get("case") or {}
     det = vio.get("detail") or {}
     return _c20(vio) and case.get("wrap") == "partitioned" and case.get("prog") in ("at", "chain") and \
-        vio.get("kind") in ("outcome-differs", "value-differs", "process-death")
+        vio.get("kind") in ("outcome-differs", "value-differs", "process-death", "hang")
+    # ("hang": the foreign start/stop depend on what the heap holds; in a long-lived process they can describe an
+    # enormous range that the compiled loop then walks - the same case returns in 3 s in a fresh process)
 
 
 @mechanism("F110d-numba-virtual-field-access")
